@@ -46,11 +46,21 @@ def _env():
     return e
 
 
+MEM_LIMIT_GB = int(os.environ.get("VERIF_KANI_MEM_GB", "14"))
+
+
+def _limits():
+    import resource
+    # per-process address-space cap (inherited by every cbmc): out-of-memory becomes "inconclusive"
+    lim = MEM_LIMIT_GB * 1024 * 1024 * 1024
+    resource.setrlimit(resource.RLIMIT_AS, (lim, lim))
+
+
 def _run(cmd, cwd, timeout):
     t0 = time.time()
     try:
         p = subprocess.run(cmd, cwd=cwd, env=_env(), stdout=subprocess.PIPE, stderr=subprocess.STDOUT, text=True,
-                           errors="replace", timeout=timeout)
+                           errors="replace", timeout=timeout, preexec_fn=_limits)
         return p.returncode, p.stdout, time.time() - t0, False
     except subprocess.TimeoutExpired as ex:
         out = ex.stdout.decode(errors="replace") if isinstance(ex.stdout, bytes) else (ex.stdout or "")
